@@ -152,14 +152,20 @@ class Parser:
                 self.eat("}")
                 res += inner
             elif v == "const":
-                self.i += 1
-                name = self.ident()
-                self.eat(":")
-                ty = self.type_()
-                self.eat("=")
-                e = self.expr()
-                self.eat(";")
-                res.append(("const", name, ty, e))
+                save = self.i
+                try:
+                    self.i += 1
+                    name = self.ident()
+                    self.eat(":")
+                    ty = self.type_()
+                    self.eat("=")
+                    e = self.expr()
+                    self.eat(";")
+                    res.append(("const", name, ty, e))
+                except Unsupported:
+                    # a constant outside the subset is an error only if it is used
+                    self.i = save
+                    self.skip_to_semicolon_or_block()
             elif v == "type":
                 self.skip_to_semicolon_or_block()
             elif v == "enum":
@@ -249,8 +255,12 @@ class Parser:
                 d += 1
             elif self.at(">"):
                 d -= 1
+            elif self.at(">>"):
+                d -= 2
+            elif self.peek()[0] == "eof":
+                raise Unsupported("unbalanced generics")
             self.i += 1
-            if d == 0:
+            if d <= 0:
                 break
 
     def skip_where(self):
@@ -263,15 +273,7 @@ class Parser:
         name = self.ident()
         if self.at("<"):
             if self.only is not None and name not in self.only:
-                d = 0
-                while True:
-                    if self.at("<"):
-                        d += 1
-                    elif self.at(">"):
-                        d -= 1
-                    self.i += 1
-                    if d == 0:
-                        break
+                self.skip_generics()
             elif self.tymap:
                 self.skip_generics()
             else:
@@ -372,7 +374,7 @@ class Parser:
                 stmts.append(("expr", e))
             elif self.at("}"):
                 tail = e
-            elif e[0] in ("if", "match", "block"):
+            elif e[0] in ("if", "iflet", "match", "block"):
                 stmts.append(("expr", e))
             else:
                 raise Unsupported(f"statement not terminated near token {self.i}: {self.peek()[1]!r}")
@@ -380,7 +382,7 @@ class Parser:
         return ("block", stmts, tail)
 
     # ---- expressions (precedence climbing)
-    BIN = [("||",), ("&&",), ("==", "!=", "<", ">", "<=", ">="), ("|",), ("^",), ("&",), ("<<", ">>"), ("+", "-"), ("*", "/", "%")]
+    BIN = [("..", "..="), ("||",), ("&&",), ("==", "!=", "<", ">", "<=", ">="), ("|",), ("^",), ("&",), ("<<", ">>"), ("+", "-"), ("*", "/", "%")]
 
     def expr(self, lvl=0, no_struct=False):
         if lvl == 0 and self.at("return"):
@@ -482,6 +484,20 @@ class Parser:
             return ("paren", e)
         if v == "{":
             return self.block()
+        if v == "if" and self.peek(1)[1] == "let":
+            self.i += 2
+            if not (self.peek()[1] == "Some" and self.peek(1)[1] == "("):
+                raise Unsupported("if-let with a pattern other than Some(x)")
+            self.i += 2
+            name = self.ident()
+            self.eat(")")
+            self.eat("=")
+            c = self.expr(no_struct=True)
+            b = self.block()
+            el = None
+            if self.opt("else"):
+                el = self.primary(no_struct) if self.at("if") else self.block()
+            return ("iflet", name, c, b, el)
         if v == "if":
             self.i += 1
             c = self.expr(no_struct=True)
@@ -696,6 +712,10 @@ class Gen:
                 def kr(b, bt):
                     if not (is_int(at) and is_int(bt)):
                         raise Unsupported(f"comparison of {at} and {bt}")
+                    if at in NATTY or bt in NATTY:
+                        if not ((at in NATTY or at == "int") and (bt in NATTY or bt == "int")):
+                            raise Unsupported(f"comparison of {at} and {bt}")
+                        return f"(if ({as_nat(a, at)} {op} {as_nat(b, bt)}) then\n {kt()}\n else\n {kf()})"
                     return f"(if ({a} {op} {b}) then\n {kt()}\n else\n {kf()})"
                 return self.tr(c[3], env, kr, ret)
             return self.tr(c[2], env, kl, ret)
@@ -771,6 +791,8 @@ class Gen:
             # a side-effect-free getter of the contract's state: a field of the environment-reads record
             self.uses_reads = True
             return (f"envr.{e[1][1][1]}", self.reads[e[1][1][1]])
+        if e[0] == "path" and e[1] == ["u32", "BITS"]:
+            return ("(32 : Nat)", "u32")
         if e[0] == "path" and len(e[1]) == 2 and e[1][0] == "Rounding":
             return (f"Rounding.{e[1][1]}", "Rounding")
         if e[0] == "path" and len(e[1]) == 2 and e[1][0] in getattr(self, "enums", {}):
@@ -815,7 +837,10 @@ class Gen:
             c = self.cond(e[1], env)
             a, at = self.pure(self.block_expr(e[2]), env)
             b, bt = self.pure(self.block_expr(e[3]), env)
-            return (f"(if {c} then {a} else {b})", at if at != "int" else bt)
+            rt_ = at if at != "int" else bt
+            if rt_ in NATTY:
+                a, b = as_nat(a, at), as_nat(b, bt)
+            return (f"(if {c} then {a} else {b})", rt_)
         raise Unsupported(f"not a pure expression: {e[0]} {e[1] if len(e) > 1 and isinstance(e[1], str) else ''}")
 
     def storage_get(self, e):
@@ -867,6 +892,11 @@ class Gen:
             bits = BITS[rt]
             al, at_ = self.pure(args[0], env)
             return (f"(uN_{name} {bits} {rl} {as_nat(al, at_)})", rt)
+        if rt.startswith("Vec<") and name == "get" and len(args) == 1:
+            al, at_ = self.pure(args[0], env)
+            if not (at_ in NATTY or at_ == "int"):
+                raise Unsupported("Vec::get with an index of type " + at_)
+            return (f"({rl}[{as_nat(al, at_)}]?)", f"Option<{rt[4:-1]}>")
         if rt.startswith("Vec<") and name == "len" and not args:
             return (f"(List.length {rl})", "u32")
         if rt in NATTY and name == "div_ceil" and len(args) == 1:
@@ -931,10 +961,13 @@ class Gen:
         if kind == "return":
             if e[1] is None:
                 raise Unsupported("return without value")
-            return self.tr(e[1], env, lambda a, t: f"Comp.ok {as_nat(a, t) if ret in NATTY else a}", ret)
+            wrap = getattr(self, "ret_wrap", None) or (lambda x: x)
+            return self.tr(e[1], env, lambda a, t: f"Comp.ok {wrap(as_nat(a, t) if ret in NATTY else a)}", ret)
         if kind == "field":
             return self.tr(e[1], env, lambda a, t: k(*self.pure(("field", ("var", "$f"), e[2]), dict(env, **{"$f": (a, t)}))), ret)
         if kind == "try":
+            if getattr(self, "ret_wrap", None):
+                raise Unsupported("`?` inside a loop with early returns")
             def kk(a, t):
                 if not t.startswith("Option<") or not ret.startswith("Option<"):
                     raise Unsupported(f"`?` on {t} in a function returning {ret}")
@@ -953,10 +986,10 @@ class Gen:
                         v = self.fresh()
                         # an untyped literal on the left takes the type of the comparison it stands in: u32 here
                         return f"(Comp.bind (uN_shl {BITS[at] if at in NATTY else 32} {as_nat(a, at)} {b}) fun {v} =>\n {k(v, at if at in NATTY else 'u32')})"
-                    if ty in NATTY and e[1] in ("+", "-", "*"):
+                    if ty in NATTY and e[1] in ("+", "-", "*", "/", "%"):
                         bits = BITS[ty]
                         v = self.fresh()
-                        opn = {"+": "add", "-": "sub", "*": "mul"}[e[1]]
+                        opn = {"+": "add", "-": "sub", "*": "mul", "/": "div", "%": "rem"}[e[1]]
                         return f"(Comp.bind (uN_{opn} {bits} {as_nat(a, at)} {as_nat(b, bt)}) fun {v} =>\n {k(v, ty)})"
                     if ty != "i128":
                         raise Unsupported(f"operator {e[1]} on {ty}")
@@ -964,6 +997,16 @@ class Gen:
                     return f"(Comp.bind (i128_{self.COMP_BIN[e[1]]} {a} {b}) fun {v} =>\n {k(v, 'i128')})"
                 return self.tr(e[3], env, kr, ret)
             return self.tr(e[2], env, kl, ret)
+        if kind == "bin" and e[1] in ("&", "|", "^", ">>"):
+            # a bit operation whose operands are computed: evaluate them, then the pure operation on the atoms
+            def kl(a, at):
+                def kr(b, bt):
+                    got2 = self.pure(("bin", e[1], ("var", "$l"), ("var", "$r")), dict(env, **{"$l": (a, at), "$r": (b, bt)}))
+                    return k(got2[0], got2[1])
+                return self.tr(e[3], env, kr, ret)
+            return self.tr(e[2], env, kl, ret)
+        if kind == "mcall" and e[2] == "find_map" and len(e[3]) == 1 and self.strip(e[1])[0] == "bin" and self.strip(e[1])[1] == "..":
+            return self.tr_find_map(e, env, k, ret)
         if kind == "un" and e[1] == "-":
             def kn(a, at):
                 v = self.fresh()
@@ -1075,6 +1118,17 @@ class Gen:
                     got = None
                 if got is not None:
                     return k(got[0], got[1])
+                if rt_.startswith("Option<") and name == "map" and len(args) == 1 and self.strip(args[0])[0] == "closure" \
+                        and len(self.strip(args[0])[1]) == 1:
+                    # `opt.map(|x| body)` with a body that computes (and may panic): a case split
+                    cl = self.strip(args[0])
+                    pv = cl[1][0]
+                    seen = {}
+                    def ksome(a, t):
+                        seen["t"] = t
+                        return k(f"(some {a})", f"Option<{t}>")
+                    some_code = self.tr(cl[2], dict(env, **{pv: (pv, rt_[7:-1])}), ksome, ret)
+                    return f"(optCase {r}\n (fun {pv} =>\n {some_code})\n ({k('none', 'Option<' + seen.get('t', '?') + '>')}))"
                 if rt_.startswith("Option<") and name == "unwrap_or_else":
                     a = self.strip(args[0])
                     if not (a[0] == "closure" and not a[1] and self.strip(a[2])[0] == "macro" and self.strip(a[2])[1] == "panic_with_error"):
@@ -1219,6 +1273,27 @@ class Gen:
                     return "Comp.panic"
                 if e[0] == "return":
                     return self.tr(e, env, None, ret)
+                if e[0] == "iflet":
+                    # `if let Some(x) = v { statements }` [else { statements }] in statement position
+                    _, nm, sc, tb, eb = e
+                    tb = self.as_stmts(tb)
+                    if tb[2] is not None:
+                        raise Unsupported("if-let statement with a value")
+                    if self.assigned_vars(tb[1], set()):
+                        raise Unsupported("if-let statement that assigns")
+                    def kil(a, t):
+                        if not t.startswith("Option<"):
+                            raise Unsupported("if-let on " + t)
+                        some_c = self.tr_stmts(tb[1], dict(env, **{nm: (nm, t[7:-1])}), lambda env2: go(i + 1, env), ret)
+                        if eb is None:
+                            none_c = go(i + 1, env)
+                        else:
+                            eb_ = self.as_stmts(eb)
+                            if eb_[0] != "block" or eb_[2] is not None or self.assigned_vars(eb_[1], set()):
+                                raise Unsupported("else of an if-let statement")
+                            none_c = self.tr_stmts(eb_[1], env, lambda env2: go(i + 1, env), ret)
+                        return f"(optCase {a}\n (fun {nm} =>\n {some_c})\n ({none_c}))"
+                    return self.tr(sc, env, kil, ret)
                 raise Unsupported(f"expression statement {e[0]}")
             raise Unsupported(f"statement {s[0]}")
         return go(0, env)
@@ -1273,6 +1348,9 @@ class Gen:
         body = self.as_stmts(body)
         if body[2] is not None:
             raise Unsupported("for body with a value")
+        c_ = self.strip(coll)
+        if c_[0] == "mcall" and c_[2] == "rev" and not c_[3] and self.strip(c_[1])[0] == "bin" and self.strip(c_[1])[1] == "..=":
+            return self.tr_for_range_rev(var, self.strip(c_[1]), body, env, k_after, ret)
         cl, ct = self.pure(coll, env)
         if not ct.startswith("Vec<"):
             raise Unsupported(f"for over {ct}")
@@ -1304,6 +1382,79 @@ class Gen:
             proj = st if len(muts) == 1 else st + "".join(".2" for _ in range(jx)) + (".1" if jx < len(muts) - 1 else "")
             env2[m] = (proj, env[m][1])
         return f"(Comp.bind ({name}{ev} {cl} {' '.join(env[v][0] for v in params)}) fun {st} =>\n {k_after(env2)})"
+
+    def loop_params(self, env):
+        others = [v for v in sorted(env) if not v.startswith("$")]
+        penv = {v: (v + "_", env[v][1]) for v in others}
+        plist = " ".join(f"({penv[v][0]} : {self.lean_ty(env[v][1])})" for v in others)
+        return others, penv, plist
+
+    def tr_for_range_rev(self, var, rng, body, env, k_after, ret):
+        """`for i in (lo..=hi).rev() { body }` where the body assigns nothing and may `return`: an auxiliary
+        definition by structural recursion on the number of remaining iterations; its result is `some r` when
+        the body returned `r` from the FUNCTION, `none` when the loop ran to its end"""
+        if self.assigned_vars(body[1], set()):
+            raise Unsupported("descending range loop with loop-carried variables")
+        if getattr(self, "ret_wrap", None):
+            raise Unsupported("nested loops with early returns")
+        self.loops += 1
+        name = f"{self.cur_ns}.{self.cur_fn}.loop{self.loops}"
+        others, penv, plist = self.loop_params(env)
+        rd = self.cur_ns in getattr(self, "reads_ns", set())
+        ev = " envr" if rd else ""
+        again = lambda en: f"{name}{ev} c_ lo_ {' '.join(penv[v][0] for v in others)}"
+        benv = dict(penv, **{var: ("(lo_ + c_)", "u32")})
+        self.ret_wrap = lambda x: f"(some {x})"
+        try:
+            code = self.tr_stmts(body[1], benv, again, ret)
+        finally:
+            self.ret_wrap = None
+        self.aux.append(f"def {name} {'(envr : ' + self.cur_ns + '.Reads) ' if rd else ''}(cnt_ : Nat) (lo_ : Nat) {plist} : Comp (Option {self.lean_ty(ret)}) :=\n"
+                        f" match cnt_ with\n | 0 => Comp.ok none\n | c_ + 1 =>\n {code}\n")
+        def klo(lo, lot):
+            def khi(hi, hit):
+                r = self.fresh("r")
+                v = self.fresh("v")
+                return (f"(Comp.bind ({name}{ev} ({as_nat(hi, hit)} + 1 - {as_nat(lo, lot)}) {as_nat(lo, lot)} {' '.join(env[v_][0] for v_ in others)}) fun {r} =>\n"
+                        f" (optCase {r}\n (fun {v} => Comp.ok {v})\n ({k_after(env)})))")
+            return self.tr(rng[3], env, khi, ret)
+        return self.tr(rng[2], env, klo, ret)
+
+    def tr_find_map(self, e, env, k, ret):
+        """`(lo..hi).find_map(|i| body)`: the first `Some` the body yields for i = lo, lo+1, .., hi-1 — an
+        auxiliary definition by structural recursion on the number of remaining iterations"""
+        rng, cl = self.strip(e[1]), self.strip(e[3][0])
+        if cl[0] != "closure" or len(cl[1]) != 1:
+            raise Unsupported("find_map without a one-parameter closure")
+        if getattr(self, "ret_wrap", None):
+            raise Unsupported("find_map inside a loop with early returns")
+        var = cl[1][0]
+        self.loops += 1
+        name = f"{self.cur_ns}.{self.cur_fn}.loop{self.loops}"
+        others, penv, plist = self.loop_params(env)
+        rd = self.cur_ns in getattr(self, "reads_ns", set())
+        ev = " envr" if rd else ""
+        seen = {}
+        def kbody(a, t):
+            if not t.startswith("Option<"):
+                raise Unsupported("find_map closure yielding " + t)
+            if not t.endswith("?>"):
+                seen["t"] = t
+            v = self.fresh("v")
+            return (f"(optCase {a}\n (fun {v} => Comp.ok (some {v}))\n ({name}{ev} c_ (i_ + 1) {' '.join(penv[v_][0] for v_ in others)}))")
+        benv = dict(penv, **{var: ("i_", "u32")})
+        code = self.tr(cl[2], benv, kbody, ret)
+        if "t" not in seen:
+            raise Unsupported("find_map: result type unknown")
+        self.aux.append(f"def {name} {'(envr : ' + self.cur_ns + '.Reads) ' if rd else ''}(cnt_ : Nat) (i_ : Nat) {plist} : Comp {self.lean_ty(seen['t'])} :=\n"
+                        f" match cnt_ with\n | 0 => Comp.ok none\n | c_ + 1 =>\n {code}\n")
+        def klo(lo, lot):
+            def khi(hi, hit):
+                r = self.fresh("r")
+                return (f"(Comp.bind ({name}{ev} ({as_nat(hi, hit)} - {as_nat(lo, lot)}) {as_nat(lo, lot)} {' '.join(env[v_][0] for v_ in others)}) fun {r} =>\n"
+                        f" {k(r, seen['t'])})")
+            return self.tr(rng[3], env, khi, ret)
+        return self.tr(rng[2], env, klo, ret)
 
     def tr_block(self, b, env, k, ret):
         if b[0] != "block":
@@ -1378,6 +1529,8 @@ FILES_CAP = [
 READS_VOTES = {"Votes": {"get_checkpoint": ("fn", ["u32"], "Checkpoint")}}
 STRUCTS_VOTES = {"Checkpoint": [("ledger", "u32"), ("votes", "u128")]}
 FILES_VOTES = [("Votes", "packages/governance/src/votes/storage.rs", ["lookup_checkpoint_at"])]
+FILES_CONS = [("Consecutive", "packages/tokens/src/non_fungible/extensions/consecutive/storage.rs",
+               ["find_bit_in_item", "find_bit_in_bucket"])]
 READS_MERKLE = {"Merkle": {"hash_pair": ("fn", ["Bytes32", "Bytes32"], "Bytes32"), "gt": "fn2bool"}}
 FILES_MERKLE = [("Merkle", "packages/contract-utils/src/crypto/hashable.rs", ["commutative_hash_pair"]),
                 ("Merkle", "packages/contract-utils/src/crypto/merkle.rs", ["verify", "verify_with_index"])]
@@ -1805,7 +1958,9 @@ def main():
                 sys.stdout.write(txt)
         sys.exit(rc)
     try:
-        if "--merkle" in sys.argv:
+        if "--cons" in sys.argv:
+            txt = translate(repo, FILES_CONS)
+        elif "--merkle" in sys.argv:
             txt = translate(repo, FILES_MERKLE, reads=READS_MERKLE, tymaps=TYMAPS_MERKLE)
         elif "--votes" in sys.argv:
             txt = translate(repo, FILES_VOTES, reads=READS_VOTES, structs=STRUCTS_VOTES)
